@@ -74,6 +74,13 @@ def run(chk):
             df.index = [f"tcr{i}" for i in range(n)]
         elif kind == "duplicated":
             df.index = [i // 2 for i in range(n)]
+        # column dtypes: plain objects, pandas categoricals, the nullable string dtype - values are what counts, and the caller's
+        # table (dtypes included) must come back untouched
+        dt = rng.choice(["object", "object", "category", "string"])
+        if dt != "object":
+            for col in rng.sample(["CDR3A", "CDR3B", "TRAV", "TRBV"], rng.randint(1, 4)):
+                df[col] = df[col].astype(dt)
+            kind = kind + "+" + dt
         return df, kind
 
     def model_rows(df):
@@ -104,7 +111,8 @@ def run(chk):
         A0, B0 = A.copy(deep=True), B.copy(deep=True)
         rc = core.call_real(lambda: np.asarray(metric.calc_cdist_matrix(A, B)))
         rp = core.call_real(lambda: np.asarray(metric.calc_pdist_vector(A)))
-        unchanged = A.equals(A0) and B.equals(B0) and list(A.columns) == list(A0.columns) and list(A.index) == list(A0.index)
+        unchanged = (A.equals(A0) and B.equals(B0) and list(A.columns) == list(A0.columns) and list(A.index) == list(A0.index)
+                     and list(map(str, A.dtypes)) == list(map(str, A0.dtypes)) and list(map(str, B.dtypes)) == list(map(str, B0.dtypes)))
         wl = [w["iw"], w["dw"], w["sw"], w["aw"], w["bw"], w["c1"], w["c2"], w["c3"]]
         meta = {"class": cname, "kwargs": kwargs, "index_kinds": [ka, kb], "n": [len(A), len(B)]}
         ma, mb = model_rows(A), model_rows(B)
@@ -125,6 +133,7 @@ def run(chk):
         chain, cdr, allowed = CLASSES[cname]
         metric = getattr(tm, cname)()
         A, ka = table(rng.randint(2, 7))
+        A = A.astype({c: object for c in ("CDR3A", "CDR3B", "TRAV", "TRBV")})      # cells of this table are overwritten below
         core.call_real(lambda: metric.calc_pdist_vector(A))
         core.call_real(lambda: metric.calc_cdist_matrix(A, A))
         what = rng.choice(["cdr3", "cdr3", "v", "both"])
